@@ -276,6 +276,12 @@ def check(ctx):
         for c in calls:
             deleg += 1
             recv = c.func.value
+            if isinstance(recv, ast.Name):
+                # local bound once to the active context: active_queue = cls.active_context()
+                ds_ = [n_ for n_ in walk_shallow(f.node) if isinstance(n_, ast.Assign) and len(n_.targets) == 1
+                       and isinstance(n_.targets[0], ast.Name) and n_.targets[0].id == recv.id]
+                if len(ds_) == 1:
+                    recv = ds_[0].value
             if not (_is_call_to(recv, "active_context") and not recv.args):
                 rep.refuted("R-C41-inner", qm.relpath, f.qualname, c,
                             "delegates to something other than the innermost active context")
